@@ -186,8 +186,9 @@ func (v ReceiverValidator) validateNonBodyParam(
 		return &diag
 	}
 
-	isErrType := param.Type.PkgPath == "" && param.Type.Name == "error"
-	isMapType := param.Type.PkgPath == "" && strings.HasPrefix(param.Type.Name, "map[")
+	// Note that a usage site carries the package of the *using* code - 'error' and maps have no package of their own
+	isErrType := param.Type.Name == "error"
+	isMapType := strings.HasPrefix(param.Type.Name, "map[")
 	isAnEnum := param.Type.SymbolKind == common.SymKindEnum
 
 	isAnAlias, isAPrimitiveAlias := isPrimitiveAlias(param)
